@@ -99,6 +99,7 @@ type SearchExpression struct {
 	FilterOp         FilterOperator
 	RightSearchInput *SearchExpressionInput
 	SearchInfo       *SearchInfo
+	NegateMatch      bool // select the records the expression does NOT match
 }
 
 type SearchInfo struct {
@@ -407,6 +408,7 @@ func extractSearchQueryFromExpressionFilter(exp *ExpressionFilter, isCaseInsensi
 			LeftSearchInput:  leftSearchInput,
 			FilterOp:         exp.FilterOperator,
 			RightSearchInput: rightSearchInput,
+			NegateMatch:      exp.NegateMatch,
 		},
 	}
 	expType := getSearchTypeFromSearchExpression(sq.ExpressionFilter)
